@@ -15,6 +15,7 @@ inductive Op
   | wr (cid : Nat) (evs : List TxEv)        -- script for the next send() calls
   | block (cid : Nat) (b : Bool)            -- the socket never becomes writable / does again
   | sethbh (cid : Nat) (v : Nat)
+  | anon (cid : Nat)                        -- the connection's peer can no longer be resolved (names the node does not know)
   | dial (plan : List String)               -- outcomes of the next connect() calls
   | conn (cid : Nat) (ok : Bool)            -- result of a non-blocking connect
   | adv (dt : Nat)                          -- the clock advances
@@ -64,6 +65,7 @@ def applyOp (infoOf : AMsg → MsgInfo) (w : World) : Op → World
   | .block cid b =>
     if b then { w with blocked := w.blocked ++ [cid] } else { w with blocked := w.blocked.filter (· != cid) }
   | .sethbh cid v => { w with st := w.st.modConn cid fun c => { c with hbh := v } }
+  | .anon cid => { w with st := w.st.modConn cid fun c => { c with nodeName := "", hostIdentity := "ghost.x" } }
   | .dial plan => { w with st := { w.st with dialPlan := w.st.dialPlan ++ plan } }
   | .conn cid ok =>
     { w with soErr := (w.soErr.filter (·.1 != cid)) ++ [(cid, ok)],
